@@ -337,7 +337,7 @@ impl FsModel {
     'one: for n in order {
       let choices = &per_file[n];
       for c in choices.iter() {
-        if out.len() >= 3 * cap {
+        if out.len() >= cap.max(72) {
           break 'one;
         }
         out.push(Descriptor {
